@@ -592,6 +592,13 @@ fn write_pdf(m: &ModelSpec) -> Vec<u8> {
 }
 
 pub fn write(spec: &VoiceSpec) -> Vec<u8> {
+    write_hooked(spec, &mut |_, t| t.into_bytes())
+}
+
+/// Like `write`, but every text section of the data part ("DURATION_TREE", "STREAM_TREE[MCP]",
+/// "GV_TREE[LF0]", "STREAM_WIN[MCP]#0", ...) passes through `hook` before it is laid out, so
+/// structural faults keep all other positions valid.
+pub fn write_hooked(spec: &VoiceSpec, hook: &mut dyn FnMut(&str, String) -> Vec<u8>) -> Vec<u8> {
     let mut data: Vec<u8> = Vec::new();
     let mut pos: Vec<String> = Vec::new();
     let mut put = |data: &mut Vec<u8>, bytes: &[u8]| -> String {
@@ -601,17 +608,17 @@ pub fn write(spec: &VoiceSpec) -> Vec<u8> {
     };
     let r = put(&mut data, &write_pdf(&spec.duration));
     pos.push(format!("DURATION_PDF:{}", r));
-    let r = put(&mut data, write_model_text(&spec.duration, spec.quote_mode).as_bytes());
+    let r = put(&mut data, &hook("DURATION_TREE", write_model_text(&spec.duration, spec.quote_mode)));
     pos.push(format!("DURATION_TREE:{}", r));
     for s in &spec.streams {
         let mut rs = Vec::new();
-        for w in &s.windows {
+        for (wi, w) in s.windows.iter().enumerate() {
             let txt = format!(
                 "{} {}\n",
                 w.len(),
                 w.iter().map(|c| fmt_f64(*c)).collect::<Vec<_>>().join(" ")
             );
-            rs.push(put(&mut data, txt.as_bytes()));
+            rs.push(put(&mut data, &hook(&format!("STREAM_WIN[{}]#{}", s.name, wi), txt)));
         }
         pos.push(format!("STREAM_WIN[{}]:{}", s.name, rs.join(",")));
     }
@@ -620,7 +627,7 @@ pub fn write(spec: &VoiceSpec) -> Vec<u8> {
         pos.push(format!("STREAM_PDF[{}]:{}", s.name, r));
     }
     for s in &spec.streams {
-        let r = put(&mut data, write_model_text(&s.model, spec.quote_mode).as_bytes());
+        let r = put(&mut data, &hook(&format!("STREAM_TREE[{}]", s.name), write_model_text(&s.model, spec.quote_mode)));
         pos.push(format!("STREAM_TREE[{}]:{}", s.name, r));
     }
     for s in &spec.streams {
@@ -631,7 +638,7 @@ pub fn write(spec: &VoiceSpec) -> Vec<u8> {
     }
     for s in &spec.streams {
         if let Some(g) = &s.gv {
-            let r = put(&mut data, write_model_text(g, spec.quote_mode).as_bytes());
+            let r = put(&mut data, &hook(&format!("GV_TREE[{}]", s.name), write_model_text(g, spec.quote_mode)));
             pos.push(format!("GV_TREE[{}]:{}", s.name, r));
         }
     }
